@@ -8,9 +8,10 @@ From GS Require Import LTS HttpCfg HttpServer HttpCfgProofs HttpInv HttpInvStep 
 Import ListNotations.
 
 Section Progress.
+  Variable stop_locked : bool.
   Variable validated : bool.
   Variable mux_ok : list str -> bool.
-  Notation step := (step validated mux_ok).
+  Notation step := (step stop_locked validated mux_ok).
 
   Record Inv0 (s : state) : Prop := {
     z_free : holder s = None <-> kpc s = KFree;
@@ -62,6 +63,13 @@ Section Progress.
     assert (Hrel : forall i, holder s = Some (ByReload i) -> fsm_st s = FReloading).
     { intros i E. destruct (Zl i E) as [?|[_ X]]; [assumption|]. unfold run_returned in X. rewrite Er in X. discriminate. }
     cbn [fsm_st with_env] in H.
+    destruct stop_locked.
+    { injection H as <-. constructor; cbn; auto.
+      + intros E. contradiction.
+      + intros [?|?]; discriminate.
+      + intros i E. left. exact (Hrel i E).
+      + intros [?|?]; discriminate.
+      + intros [?|[?|?]]; discriminate. }
     destruct (fsm_allowed (fsm_st s) FStopping) eqn:Ea; injection H as <-.
     - constructor; cbn; auto.
       + intros E. contradiction.
